@@ -137,3 +137,10 @@ PROPS["C29"] = dict(explanation="Bounded symbolic execution of the real ColumnSe
     bounds=["Epoch + 1..3 columns, each of float32, int32, float64, int64, int16, uint8, uint16, uint32, uint64, bool or STRING16 ([16]rune, every rune symbolic) (every combination)", "1..2 rows, with and without 8-byte alignment padding", "values: any value of the integer types; floats k/16 (float32, |k|<=2^20) and k/1024 (float64, |k|<=2^40)"],
     outside=["BYTE(int8) columns", "more than 3 value columns or 2 rows", "NaN/Inf and floats that are not dyadic with small numerators (the byte copy does not depend on the value)"],
     stubs=["io.SwapSliceByte/SwapSliceData/CastToByteSlice/DataToByteSlice: typed little-endian reinterpretation", "reflect: engine mini-reflect"], assumptions=COMMON_ASSUME)
+
+
+PROPS["C31"] = dict(explanation="Bounded symbolic execution of the real CandleDurationFromString, CandleDuration.Truncate/Ceil/IsWithin (with the standard library's Time.Date/ISOWeek/Add executed from their own SSA), QueryableTimeframe, QueryableNrecords, TimeframeFromString and TimeframeFromDuration. Windows: the calendar day of the timestamp is case-split over calendar edges (1 Jan, leap day, 1 Mar, 30 Jun, ISO-week edges 27/28 Dec, 31 Dec; thorough: 12 days in 2020 and 2021), its time of day is symbolic to the nanosecond, in UTC and in a fixed UTC-5 zone; for every duration string the window start is not after the timestamp, the window end is after it, and the timestamp is reported inside its own window. Strings: parse/print/parse stability and divisibility by the queryable timeframe for every listed duration string.",
+    runs=[dict(pkg="utils", files=["c31_timeframe.go"], entries=["VerifC31Windows", "VerifC31Strings"], must_reach=["entered", "computed"], opts=dict(timeout=60))],
+    bounds=["duration strings: quick 1Sec,1Min,5Min,1H,1D,1W,1M (windows) and all 25 (strings); thorough 25 strings incl. 90Sec, 90Min, 5D, 2M, 2Y", "5 calendar days of 2020 (thorough 12 days of 2020 and 2021), every nanosecond of the day", "zones UTC and fixed UTC-5"],
+    outside=["days other than the listed calendar edges", "zones with daylight-saving transitions", "known finding regions: week windows outside UTC or longer than one week; durations that are not a whole number of their largest unit (90Sec, 90Min) print truncated"],
+    stubs=["time.Time bit packing: semantic model (see C10)", "Time.Truncate: semantic model (instant minus its remainder modulo d, counted from year 1)", "regexp on concrete strings: native call-out"], assumptions=COMMON_ASSUME)
